@@ -6,9 +6,42 @@ from pathlib import Path
 
 VERIF = Path(__file__).resolve().parents[2]
 
+HISTORY_R6 = {
+    "C01-r6m1": "missed at first -> genotypes of boundary genes (0, sys.maxsize, constant) on grammars with plain float / int / str fields; this also exposed that the stack mapping never terminates on constant genotypes (fixed: 67737cf)",
+    "C01-r6m2": "missed at first -> CooperativeGP over two DIFFERENT grammars: what the user's function is handed in each position, and what search() returns",
+    "C02-r6m2": "missed at first -> weighted strings (matrix with zero entries, an all-zero row, a row below the chooser's resolution) validated in every representation",
+    "C03-r6m1": "missed at first (only a broken correspondence) -> possibly-empty bounded lists with concrete element classes in the corpus; patch rebased onto 39a49c5",
+    "C03-r6m2": "missed at first -> mutation and crossover at depth limits in the hundreds, in a fresh interpreter",
+    "C05-r6m1": "missed at first (only a broken correspondence) -> symbols reachable only from below in the corpus, independent oracle for the usable sub-grammar",
+    "C06-r6m1": "missed at first -> the mutation STEP over representations whose mapping can fail (stack, short genomes)",
+    "C06-r6m2": "missed at first -> genotypes of 512 / 1024 (thorough 4096) genes",
+    "C07-r6m1": "missed at first -> a stream of short-lived genotypes on one long-lived representation, each compared with a fresh representation",
+    "C08-r6m1": "missed at first -> float-refined symbols (different FloatRange objects) under an allocation history with holes",
+    "C08-r6m2": "missed at first -> one dSGE representation object shared by several searches",
+    "C09-r6m1": "missed at first -> caught by the dSGE histories once failing mappings were handled (see section 15)",
+    "C09-r6m2": "missed at first -> what the individuals cached for the first problem is verified after steps ran under a second problem",
+    "C10-r6m1": "missed at first -> weighted grammars with an unproductive sibling production; weights in the snapshot compared to 12 digits",
+    "C10-r6m2": "missed at first -> `random_node` for non-root symbols with limits below that symbol's minimum; the start symbol is part of the snapshot",
+    "C11-r6m1": "missed at first -> real dataclasses with a non-constructor attribute declared BEFORE the constructor's parameters",
+    "C11-r6m2": "missed at first -> palette grammars: leaves chosen among given objects of a terminal class, the same object several times in one program",
+    "C12-r6m1": "missed at first -> histories with +-inf fitness, judged with the infinities mapped beyond all other values",
+    "C12-r6m2": "missed at first -> batches given as one-shot iterables; every individual handed to the tracker must be reported",
+    "C13-r6m1": "missed at first -> multi-objective problems declared with one bool under the parallel evaluator, nothing evaluated beforehand (corpus)",
+    "C14-r6m1": "missed at first -> exclusive-parallel steps nested in the slices of a parallel step",
+    "C14-r6m2": "missed at first -> compositions whose slice ENDS in crossover, odd sizes",
+    "C15-r6m2": "missed at first -> CooperativeGP: every generation of species k has population{k}_size individuals",
+    "C16-r6m1": "missed at first -> SimpleGP with elitism != novelty: best fitness monotone and the `elitism` best values dominated rank by rank",
+    "C16-r6m2": "missed at first -> fitness values that differ in the 10th digit / by one ulp, individuals of several generations",
+    "C17-r6m1": "missed at first -> a fitness function that fills and returns ONE preallocated list of floats",
+    "C18-r6m2": "missed at first -> int-literal float bounds beyond 2**53; the clean tree failed too (fixed: 39a49c5); patch rebased onto the repaired clamp",
+    "C19-r6m1": "missed at first -> a production deriving from two abstract types of the grammar",
+    "C19-r6m2": "missed at first -> weights declared AGAIN on classes a grammar was already extracted from",
+    "C20-r6m2": "missed at first -> batches handed to the real tracker as generators / iterators",
+}
+
 HISTORY_R5 = {
     "C01-r5m1": "missed at first -> unions one of whose alternatives is a wrapped type (list / tuple / refined list of the recursive symbol) in the corpus; the new corpus also exposed a KeyError of the progressive decider on such unions (fixed: 3152aa3)",
-    "C01-r5m2": "missed at first -> float refinements with int-literal bounds, dSGE genotypes whose float genes are the extreme ones",
+    "C01-r5m2": "missed at first -> float refinements with int-literal bounds, dSGE genotypes whose float genes are the extreme ones (patch rebased onto 39a49c5)",
     "C02-r5m1": "missed at first -> bounded lists whose elements can never / only sometimes be created (dependent VarRange over an empty sibling list)",
     "C02-r5m2": "missed at first -> alphabets of punctuation (^ - ] . + * [ $ | ?); strings cross the wire hex-encoded and are decoded in Lean",
     "C03-r5m2": "missed at first -> production weights, weight 0 on the strictly shallowest production, in both depth modes",
@@ -136,6 +169,7 @@ def main():
     hist.update(HISTORY_R3)
     hist.update(HISTORY_R4)
     hist.update(HISTORY_R5)
+    hist.update(HISTORY_R6)
     rows, caught = [], 0
     dirs = sorted(p for p in (VERIF / "seeded").iterdir() if p.is_dir())
     for d in dirs:
